@@ -250,7 +250,7 @@ def _record_tiny(name, tier, r):
         for j in range(1, 13 if thorough else 11):
             ks |= {2 ** j, 2 ** j - 1}
         ks |= {r.randrange(2 * n + 1) for _ in range(12 if thorough else 5)}
-        ks |= set(eclib.pattern_scalars(range(4, 13) if thorough else (6, 9, 12), n))
+        ks |= set(eclib.pattern_scalars(range(4, 13) if thorough else (11,), n))
         ks = sorted(ks)
         for pa in group:
             for ka, ca in reps(pa, lams):
